@@ -34,4 +34,54 @@ MANIFEST_TEXT['C12'] = dict(
     note='Trusted: Coq kernel + vm_compute, extraction, Go harness, the AST translator for the lock table. The generic step "atomic bodies => linearizable" is argued in DESIGN.md (M4) and exercised by the recorded-history search, not yet a Coq theorem. Endpoint-level "send on full queue is inert" is covered with C01.',
     technique='Coq proof (induction over operation sequences) + generated lock table + differential correspondence incl. linearizability search')
 
-PROPS['M1C'] = Prop('M1C', harness='m1c', entries=['m1c', 'm1c_h'], props_file='theories/Props/C20.v', quick_n=300, thorough_n=5000, design_ref='scratch')
+
+# ---------------------------------------------------------------------------------------------
+# M1: endpoint models (client + server).  One harness run ("m1": entries m1c, m1c_h, m1s) is shared.
+
+M1_TRUSTED = ['hand-written LTS of the dispatcher / endpoint (coq/theories/M1/Client.v, Server.v): Go channels, RWMutex, timers and contexts are written into the model by hand',
+              'in-process ws.Client / ws.Server doubles (tools/internal/fakews) and the goroutine-dump quiescence detector (tools/internal/sched)',
+              'verif-tagged hooks ocppj/verif_hooks.go (timer expiry injection)']
+M1_ASSUME = ['the correspondence run reproduces quiescent (class S0) schedules only: after every external event the pump and the callback goroutine run until nothing is enabled; theorems named _partial / _S0 carry that class as the decidable hypothesis run_ok, whose instances are evaluated for every harness history (entry m1c_h)',
+             'request ids are distinct non-zero integers; payload contents are opaque',
+             'ws layer delivers handler calls as the fake does (E1-E6 of DESIGN.md 4.3a)']
+M1_RULE = 'corpus of finding witnesses first, then seeded random histories (4-46 events) of send (valid/invalid) / reply (matching, foreign, queued, other client) / timer expiry / write failure on-off / disconnect / reconnect / stop / start on the real ocpp1.6 and ocpp2.0.1 endpoints of both roles, queue capacities 0..10, 1-3 clients on the server; a case counts when its encoding is distinct and has more than 3 integers'
+
+def m1prop(pid, props_file, prefixes, quick=300, thorough=6000):
+    return Prop(pid, harness='m1', entries=['m1c', 'm1c_h', 'm1s'], props_file=props_file, quick_n=quick, thorough_n=thorough,
+                trusted=M1_TRUSTED, assumptions=M1_ASSUME, rule=M1_RULE, design_ref='5 ' + pid, confirm_slow=True,
+                monitor_prefixes=prefixes, search_n=3000, harness_timeout=1200)
+
+PROPS['C01'] = m1prop('C01', 'theories/Props/C01.v', ['C01', 'panic', 'hang'])
+PROPS['C02'] = m1prop('C02', 'theories/Props/C02.v', ['C02'])
+PROPS['C07'] = m1prop('C07', 'theories/Props/C07.v', ['C07', 'hang', 'panic'])
+PROPS['C09'] = m1prop('C09', 'theories/Props/C09.v', ['C09'])
+PROPS['C10'] = m1prop('C10', 'theories/Props/C10.v', ['C10'])
+PROPS['C11'] = m1prop('C11', 'theories/Props/C11.v', ['C11'])
+PROPS['C16'] = m1prop('C16', 'theories/Props/C16.v', ['C16', 'panic'])
+
+M1_NOTE = 'Trusted: Coq kernel + vm_compute, extraction (ExtrOcamlBasic only), the Go harness with its ws doubles and quiescence detector, the hand-written LTS. Interleavings finer than one handler / one pump iteration are not in this model (DESIGN.md section 8).'
+MANIFEST_TEXT['C01'] = dict(
+    text='Coq theorems on the endpoint LTS: for every schedule accepted = concluded ++ queued as sequences (nothing lost, nothing concluded twice); in schedule class S0 every callback receives the conclusion of its own request, no conclusion is left without callback, nothing panics, a stopped endpoint retains nothing. The model is run against the real ocpp1.6 / ocpp2.0.1 endpoints of both roles on seeded histories (extracted OCaml vs Go), and property monitors are evaluated on the implementation traces themselves.',
+    note=M1_NOTE + ' Server-side exactly-once is covered by correspondence + monitors, its Coq theorems are the per-state ones of C09/C11. Two-channel reordering on the client (F5) is outside class S0.',
+    technique='Coq invariant proofs over a labelled transition system + differential correspondence of quiescent histories + trace monitors')
+MANIFEST_TEXT['C02'] = dict(
+    text='Coq theorem (client, class S0): written = concluded ++ [outstanding] and written is a prefix of accepted, for all histories and capacities; refutation witness for all-schedules (F16) proved by vm_compute; server side by correspondence of the pump model (persisting loop variables, context map) and by write-order monitors on the implementation.',
+    note=M1_NOTE, technique='Coq invariant proofs over an LTS + differential correspondence + trace monitors')
+MANIFEST_TEXT['C07'] = dict(
+    text='Coq theorem (client, class S0): the pump never blocks for good (neither on readyForDispatch nor on a timer drain) in any history; every harness history ends quiescent with all API calls returned (goroutine-dump watchdog on the implementation: a blocked call or pump is a hang).',
+    note=M1_NOTE + ' Partial: lock scopes around channel sends (F3, F10) and simultaneous server timeouts (F18) are finer than the model; they are described in DESIGN.md, not decided here.',
+    technique='Coq invariant proof over an LTS + differential correspondence with goroutine-dump hang detection')
+MANIFEST_TEXT['C09'] = dict(
+    text='Coq theorems, for every state of every schedule, both roles: a CALL_RESULT / CALL_ERROR whose id is not pending on that same connection is the identity on the whole endpoint state, hence erasable from any schedule (the genuine reply is still delivered). Tied to the code by histories with foreign ids of every class (never used, concluded, queued, pending on another client) and an impl-side monitor.',
+    note=M1_NOTE, technique='Coq proof (per-state no-op + erasure over schedules) + differential correspondence + trace monitor')
+MANIFEST_TEXT['C10'] = dict(
+    text='Coq theorems, every schedule: no CALL is handed to the network between a disconnect and the next reconnect; disconnect / reconnect leave queue and outstanding request untouched; accepted = concluded ++ queued over any number of drop/reconnect cycles; class S0: written is a prefix of accepted (dispatching resumes with the oldest unsent request).',
+    note=M1_NOTE, technique='Coq invariant proofs over an LTS + differential correspondence + trace monitor')
+MANIFEST_TEXT['C11'] = dict(
+    text='Coq theorems, every state: a session end leaves no queue, pending id or callback of that client; a send to an unconnected client is rejected with no effect on any container or channel; replies are matched per connection. Isolation across clients is decided on the implementation by multi-client histories compared with the server model and by cross-client monitors (no write / callback for a client other than the one the event concerns).',
+    note=M1_NOTE + ' The projection theorem of DESIGN.md (isolation as trace projection) is not proved; the leaked timeout context after an immediate reconnect (F13) is outside class S0.',
+    technique='Coq proofs of per-state frame properties + differential correspondence of multi-client histories + trace monitors')
+MANIFEST_TEXT['C16'] = dict(
+    text='Coq theorems (client endpoint, class S0): after Stop has run to its end no queued call, outstanding request, callback or half-closed channel remains, no stray callback, pump not stuck; Stop/Start injected at random points of histories on all four endpoint kinds, compared with the model; ws-layer Stop is covered with C13/C17.',
+    note=M1_NOTE + ' Goroutine leak and blocked synchronous callers are checked by the harness watchdog only.',
+    technique='Coq invariant proofs over an LTS + differential correspondence + trace monitors')
